@@ -10,6 +10,8 @@ running the loop to quiescence:
   ["F", v]               a read that completes no message (prefix of the next message; v = where it
                          is cut: 0 inside a ciphertext frame, 1 between header frame and body frame,
                          2 inside the body frame)
+  ["F", v, p]            the same, but the next message is sent with Transfer-Encoding: chunked and cut after p
+                         plaintext bytes (p < 0: from the end; -2 = between the terminating "0\\r\\n" and the last CRLF)
   ["C", r]               task r .cancel()
   ["A", dt]              virtual time advances dt ticks (1/4096 s)
   ["PC"] / ["PE"]        peer resets / peer half-closes (FIN);  ["PE", 1] / ["PC", 1]: the same while request bytes
@@ -40,6 +42,10 @@ Oracle (independent of the model, computed from what the accessory side and the 
   write-after-abandon      request bytes written after the transport was abandoned
   late-request-not-refused a request issued after the abandonment did not fail with the disconnection error at once
   hang                     a caller still pending after 31 s of silence
+  spurious-abandon         the transport was closed in a step that gives no reason for it (no cancel of a written
+                           request, no due timer, no peer/local close, no unsolicited or foreign message): e.g. the
+                           parser choking on a well-formed message that arrived in pieces; the outstanding and the
+                           following requests then lose the responses the accessory sent for them
 """
 from __future__ import annotations
 
@@ -49,7 +55,7 @@ import multiprocessing
 import os
 import time
 
-from common import Coverage, Driver, rng, violation
+from common import Coverage, Driver, coq_eval, rng, violation
 
 T30 = 30 * 4096
 TAIL = 31 * 4096
@@ -74,6 +80,15 @@ def _msg_bytes(k, n):
                 + str(len(body)).encode() + b"\r\n\r\n" + body)
     i = full.index(b"\r\n\r\n") + 4
     return full[:i], full[i:]
+
+
+def _msg_chunked(k, n):
+    """the same message with Transfer-Encoding: chunked (two data chunks + the terminating 0 chunk), no Content-Length"""
+    h, b = _msg_bytes(k, n)
+    lines = [l for l in h[:-4].split(b"\r\n") if not l.lower().startswith(b"content-length")]
+    head = b"\r\n".join(lines + [b"Transfer-Encoding: chunked"]) + b"\r\n\r\n"
+    b1, b2 = b[:5], b[5:]
+    return head + b"%x\r\n" % len(b1) + b1 + b"\r\n" + b"%x\r\n" % len(b2) + b2 + b"\r\n0\r\n\r\n"
 
 
 def _classify(fn_result=None, exc=None):
@@ -368,8 +383,11 @@ def run_impl(hist, cap=1):
                         ct, tail, tail_msg = tail, b"", None
                         msgs = msgs[1:]
                     for (mk, mn) in msgs:
-                        h, b = _msg_bytes(mk, mn)
-                        ct += ep.seal(h + b)
+                        if mn % 10 in (1, 6):
+                            ct += ep.seal(_msg_chunked(mk, mn))      # delivered whole, chunked encoding
+                        else:
+                            h, b = _msg_bytes(mk, mn)
+                            ct += ep.seal(h + b)
                         assign(mk, mn, is_open)
                         if mk == "E":
                             evs_here.append(mn)
@@ -384,7 +402,15 @@ def run_impl(hist, cap=1):
                         h, b = _msg_bytes(*tail_msg)
                         assign(tail_msg[0], tail_msg[1], is_open)
                         v = ev[1] % 3
-                        if v == 0:
+                        if len(ev) > 2:
+                            # CHUNKED message, cut after p plaintext bytes (p < 0: counted from the end)
+                            full = _msg_chunked(*tail_msg)
+                            cpos = ev[2] if ev[2] > 0 else len(full) + ev[2]
+                            cpos = max(1, min(len(full) - 1, cpos))
+                            c1 = ep.seal(full[:cpos])
+                            ct = c1 + ep.seal(full[cpos:])
+                            cut = len(c1)
+                        elif v == 0:
                             ct = ep.seal(h + b)
                             cut = len(ct) // 2
                         elif v == 1:
@@ -462,6 +488,14 @@ def canon_step(tokens):
 # ------------------------------------------------------------------------------------------------
 # property oracle on the implementation's observations (does not look at the model)
 # ------------------------------------------------------------------------------------------------
+def _lookahead(hist, i):
+    """the message whose prefix an F event at position i delivers"""
+    for ev in hist[i + 1:]:
+        if ev[0] == "D" and ev[1]:
+            return tuple(ev[1][0])
+    return ("H", 9000 + i)
+
+
 def oracle(hist, res):
     """Returns [(key, text)]; empty when the implementation's behaviour satisfies C08 on this history."""
     bad = []
@@ -481,6 +515,7 @@ def oracle(hist, res):
     for i, (ev, stp) in enumerate(all_steps):
         was_abandoned = abandoned
         cancel_inflight = ev[0] == "C" and ev[1] in wrote and ev[1] not in done
+        pending_written_before = {r: wt for r, wt in wrote.items() if r not in done}
         if ev[0] == "I" and i < len(hist):
             issued += 1
         for t in stp["out"]:
@@ -517,6 +552,19 @@ def oracle(hist, res):
                 events.append(int(t[1:].split("@")[0]))
         if stp["closing"]:
             abandoned = True
+        if i < len(hist) and abandoned and not was_abandoned:
+            k = ev[0]
+            legit = (k in ("PC", "PE", "LC") or cancel_inflight
+                     or (k == "A" and any(stp["now"] >= wt + T30 for wt in pending_written_before.values()))
+                     or (k == "D" and (tainted or any(m[0] == "O" or (m[0] == "H" and intended.get(m[1]) is None)
+                                                      for m in ev[1])))
+                     or (k == "F" and (tainted or any(m[0] == "O" or (m[0] == "H" and intended.get(m[1]) is None)
+                                                      for m in [_lookahead(hist, i)]))))
+            if not legit:
+                bad.append(("spurious-abandon",
+                            f"step {i} ({k}): the connection was abandoned although no request timed out or was cancelled, the "
+                            f"peer did not close and every message the accessory sent was well formed and solicited"
+                            + (f" (data_received raised {res.get('errors')})" if res.get("errors") else "")))
         if i < len(hist):
             if cancel_inflight and not stp["closing"]:
                 bad.append(("not-abandoned-after-cancel",
@@ -636,6 +684,8 @@ def gen_exhaustive(drv, cap, depth, rich, max_issue, max_frag):
                     letters.append(["D", [["O", 10 * i]]])
                 if meta["frag"] < max_frag:
                     letters.append(["F", i])
+                    if rich:
+                        letters.append(["F", i, -2])      # chunked, cut inside the terminator
                 pend = st["infl"] + st["wait"]
                 for r in pend:
                     letters.append(["C", r])
@@ -661,6 +711,20 @@ def gen_exhaustive(drv, cap, depth, rich, max_issue, max_frag):
         level = nxt
     leaves += [h for h, _ in level]
     return leaves
+
+
+def gen_chunk_cuts():
+    """a small CHUNKED response / EVENT delivered in two pieces cut at EVERY plaintext position (incl. inside the
+    terminating 0-chunk and its final CRLF), with further traffic on the same connection afterwards"""
+    out = []
+    for p in range(1, len(_msg_chunked("H", 30))):
+        out.append((1, [["I"], ["I"], ["F", 0, p], ["D", [["H", 30]]], ["D", [["H", 40]]]]))
+    for p in range(1, len(_msg_chunked("E", 20))):
+        out.append((1, [["I"], ["F", 0, p], ["D", [["E", 20]]], ["D", [["H", 30]]], ["I"], ["D", [["H", 50]]]]))
+    for p in (-1, -2, -3, -4, -5):
+        out.append((2, [["I"], ["I"], ["F", 0, p], ["D", [["H", 30], ["H", 31]]], ["I"], ["D", [["E", 56], ["H", 50]]]]))
+        out.append((1, [["F", 0, p], ["D", [["E", 10]]], ["I"], ["D", [["H", 30]]]]))
+    return out
 
 
 def gen_random(r, n, maxlen):
@@ -699,7 +763,7 @@ def gen_random(r, n, maxlen):
             elif x < 0.68:
                 h.append(["D", [["E", 10 * i]] + ([["E", 10 * i + 1]] if r.random() < 0.2 else [])])
             elif x < 0.75:
-                h.append(["F", r.randrange(3)])
+                h.append(["F", r.randrange(3)] if r.random() < 0.6 else ["F", 0, r.choice([-1, -2, -3, -5, 20, 60, 90])])
             elif x < 0.90:
                 h.append(["A", r.choice([1, 7, 4096, 4096, 5 * 4096, 5 * 4096, 14 * 4096])])
             elif x < 0.93 and not calm:
@@ -755,6 +819,151 @@ VM_EXAMPLES = [
     ("run 2 122880 I I I D:H1,H2,H3", "w0@0|w1@0||d0:resp1@0,d1:resp2@0,c@0,d2:disc@0,x@0"),
     ("run 1 122880 I I A7 LC I A122880", "w0@0|||d0:disc@7,d1:disc@7,x@7|d2:disc@7|"),
 ]
+
+
+# ------------------------------------------------------------------------------------------------
+# kernel cross-check of the extracted driver (vm_compute inside Coq on a sample of the real requests)
+# ------------------------------------------------------------------------------------------------
+def coq_request(line):
+    """the Gallina term the driver evaluates for this request line (same token grammar as ocaml/drv_c08.ml)"""
+    f = line.split(" ")
+    assert f[0] == "run"
+    mk = {"H": "KHttp", "E": "KEvent", "O": "KOther"}
+    evs = []
+    for t in f[3:]:
+        if t == "I":
+            evs.append("Issue")
+        elif t == "F":
+            evs.append("Frag")
+        elif t == "PC":
+            evs.append("PeerClose")
+        elif t == "PE":
+            evs.append("PeerEof")
+        elif t == "LC":
+            evs.append("LocalClose")
+        elif t[0] == "D":
+            evs.append("Data [" + "; ".join("(%s, %d%%N)" % (mk[m[0]], int(m[1:])) for m in t[2:].split(",") if m) + "]")
+        elif t[0] == "C":
+            evs.append("Cancel %d%%nat" % int(t[1:]))
+        elif t[0] == "A":
+            evs.append("Advance %d%%N" % int(t[1:]))
+        else:
+            raise ValueError("bad event token %r" % t)
+    return "run_steps %d%%nat %d%%N init [%s]" % (int(f[1]), int(f[2]), "; ".join(evs)), len(evs)
+
+
+def flat_answer(ans, nsteps):
+    """the driver's answer as the flat list of numbers that `show` (below) produces: everything it printed"""
+    body, _, st = ans.partition(" # ")
+    steps = body.split("|") if nsteps else []
+    out = [len(steps)]
+    oc = {"disc": (1, 0), "canc": (2, 0), "tout": (3, 0)}
+    for s in steps:
+        toks = [t for t in s.split(",") if t]
+        out.append(len(toks))
+        for t in toks:
+            head, tm = t.split("@")
+            if head[0] == "w":
+                out += [0, int(head[1:]), 0, 0, int(tm)]
+            elif head[0] == "d":
+                r, o = head[1:].split(":")
+                c, n = oc[o] if o in oc else (0, int(o[4:]))
+                out += [1, int(r), c, n, int(tm)]
+            elif head[0] == "e":
+                out += [2, 0, 0, int(head[1:]), int(tm)]
+            elif head == "c":
+                out += [3, 0, 0, 0, int(tm)]
+            elif head == "x":
+                out += [4, 0, 0, 0, int(tm)]
+            else:
+                raise ValueError("bad output token %r" % t)
+    d = dict(kv.split("=") for kv in st.split(" "))
+    infl = [x.split(":") for x in d["infl"].split(",") if x]
+    wait = [int(x) for x in d["wait"].split(",") if x]
+    out += [int(d["open"]), int(d["clock"]), int(d["next"]), len(infl)]
+    for r, w in infl:
+        out += [int(r), int(w)]
+    return out + [len(wait)] + wait
+
+
+def xsample(pool, n=24):
+    """deterministic choice of <= n (line, answer) pairs: first greedily whatever adds a not yet seen feature
+    (cap, event letter, message kind, output class, final-state shape), shortest first, then the shortest rest"""
+    def feats(la):
+        line, ans = la
+        f = line.split(" ")
+        fs = {"cap" + f[1]}
+        for t in f[3:]:
+            fs.add(t if t in ("I", "F", "PC", "PE", "LC") else t[0])
+            if t[0] == "D" and t not in ("D:",):
+                fs |= {"m" + m[0] for m in t[2:].split(",")}
+                if "," in t:
+                    fs.add("Dmulti")
+        body, _, st = ans.partition(" # ")
+        for t in body.replace("|", ",").split(","):
+            if t:
+                fs.add("o" + (t.split(":")[1][:4] if t[0] == "d" else t[0]))
+        fs.add("open" if "open=1" in st else "closed")
+        if "infl= " not in st:
+            fs.add("infl")
+        if not st.endswith("wait="):
+            fs.add("wait")
+        return fs
+    cand = sorted(set(pool), key=lambda la: (len(la[0]) + len(la[1]), la))
+    cand = [la for la in cand if la[0].count(" ") < 200]
+    chosen, seen = [], set()
+    for la in cand:
+        fs = feats(la)
+        if len(chosen) < n and not fs <= seen:
+            chosen.append(la)
+            seen |= fs
+    # fill up with longer histories too (spread over the size range, not only the smallest)
+    rest = [la for la in cand if la not in chosen]
+    k = n - len(chosen)
+    if k > 0 and rest:
+        step = max(1, len(rest) // k)
+        chosen += rest[step - 1::step][:k]
+    return chosen
+
+
+def vm_crosscheck(ctx, sample):
+    """Evaluate the sampled requests with vm_compute inside Coq (Model/Disp.v's run_steps, the function the
+    driver calls) and compare EVERYTHING the extracted OCaml driver printed for them (per-step outputs and the
+    final state): takes extraction + ocaml/drv*.ml out of the single-point-of-trust position.
+    Returns (requests evaluated, [(line, driver answer as numbers, kernel answer as numbers)])."""
+    import re
+    body = ["From Coq Require Import List NArith.", "From AHK Require Import Model.Disp.", "Import ListNotations.",
+            "Definition show_oc (o : outcome) : N * N := match o with Resp n => (0%N, n) | Disconnected => (1%N, 0%N) "
+            "| Cancelled => (2%N, 0%N) | TimedOut => (3%N, 0%N) end.",
+            "Definition show_o (o : output) : list N := match o with "
+            "| OWrote r t => [0%N; N.of_nat r; 0%N; 0%N; t] "
+            "| ODone r o t => [1%N; N.of_nat r; fst (show_oc o); snd (show_oc o); t] "
+            "| OEvent n t => [2%N; 0%N; 0%N; n; t] | OCrash t => [3%N; 0%N; 0%N; 0%N; t] "
+            "| OClosed t => [4%N; 0%N; 0%N; 0%N; t] end.",
+            "Definition show_step (os : list output) : list N := N.of_nat (length os) :: flat_map show_o os.",
+            "Definition show (r : st * list (list output)) : list N := "
+            "N.of_nat (length (snd r)) :: flat_map show_step (snd r) "
+            "++ [(if opened (fst r) then 1%N else 0%N); clock (fst r); N.of_nat (next (fst r)); N.of_nat (length (inflight (fst r)))] "
+            "++ flat_map (fun p => [N.of_nat (fst p); snd p]) (inflight (fst r)) "
+            "++ N.of_nat (length (waiters (fst r))) :: map N.of_nat (waiters (fst r)).",
+            "Open Scope N_scope."]          # results print without %N delimiters (faster); the requests below are fully annotated
+    nsteps = []
+    for line, _ in sample:
+        term, k = coq_request(line)
+        nsteps.append(k)
+        body.append(f"Eval vm_compute in (show ({term})).")
+    out = coq_eval(ctx["verif"], "C08", "crosscheck", "\n".join(body) + "\n", timeout=120)
+    blocks = out.split("= ")[1:]
+    bad = []
+    for i, (line, ans) in enumerate(sample):
+        got = [int(x) for x in re.findall(r"\d+", blocks[i].split(":")[0])] if i < len(blocks) else None
+        try:
+            want = flat_answer(ans, nsteps[i])
+        except Exception as e:  # noqa  (an answer that does not even parse is a disagreement)
+            want = "unparsable: %s" % e
+        if got != want:
+            bad.append((line, want, got))
+    return len(blocks), bad
 
 
 # ------------------------------------------------------------------------------------------------
@@ -873,6 +1082,7 @@ def run(ctx):
         streams.append(("replay", [(rp["cap"], rp["history"])]))
     else:
         streams.append(("directed", list(DIRECTED)))
+        streams.append(("chunk-cuts", gen_chunk_cuts()))
         if tier == "quick":
             plan = [(1, 6, False, 3, 1), (2, 5, False, 3, 1)]
         else:
@@ -897,9 +1107,13 @@ def run(ctx):
     n_mismatch = 0
     n_oracle = 0
     key_count = {}
+    xs_pool = []          # (request line, driver answer) pairs of the real request stream, for vm_crosscheck
     for name, cases in streams:
         lines = [model_line(cap, h + [["A", TAIL]]) for cap, h in cases]
         answers = drv.batch(lines)
+        if name != "replay":
+            stride = max(1, len(lines) // 60)
+            xs_pool.extend(list(zip(lines, answers))[::stride][:80])
         results = run_many([(cap, h, a) for (cap, h), a in zip(cases, answers)], workers)
         for (cap, hist), ans, res in zip(cases, answers, results):
             if "harness_error" in res:
@@ -961,6 +1175,17 @@ def run(ctx):
                                                f"step {i} of cap={cap} history={json.dumps(small)}: implementation {ca} != model {cb}",
                                                False, cap=cap, history=small, step=i, impl=ca, model=cb,
                                                broken="correspondence Model/Disp.v <-> aiohomekit/controller/ip/connection.py"))
+    if not ctx.get("replay"):
+        t_x = time.time()
+        xs_pool.extend(zip([l for l, _ in VM_EXAMPLES], drv.batch([l for l, _ in VM_EXAMPLES])))
+        n_x, bad_x = vm_crosscheck(ctx, xsample(xs_pool))
+        cov.extra["vm_compute_crosscheck"] = dict(requests=n_x, disagreements=len(bad_x), wall_s=round(time.time() - t_x, 1))
+        if bad_x or n_x < 10:
+            line, want, got = bad_x[0] if bad_x else ("-", None, None)
+            viols.append(violation("extraction-vs-vm_compute",
+                                   f"{len(bad_x)} of {n_x} sampled requests: the extracted driver's answer differs from "
+                                   f"vm_compute of Model/Disp.v run_steps inside Coq, first on {line!r}", False,
+                                   line=line, driver=want, kernel=got))
     cov.extra["disagreements_checked"] = n_mismatch
     cov.extra["oracle_rejections"] = n_oracle
     cov.extra["oracle_rejections_by_key"] = key_count
